@@ -73,6 +73,8 @@ def visible(data, raw):
         return norm_input(np_of(raw))
     if data == 'listnpy':
         return [norm_input(np_of(raw, k)) for k in range(3)]
+    if data == 'listnpy12':
+        return [norm_input(np_of(raw, k)) for k in range(12)]
     if data == 'pd':
         return norm_input(df_of(raw))
     return raw
@@ -124,9 +126,9 @@ def make_pipeline(spec, module='ref.family_gen'):
         import numpy as _np
         import pandas as _pd
         from taskchain.data import ListOfNumpyData
-        if data == 'listnpy':
+        if data in ('listnpy', 'listnpy12'):
             meta['data_class'] = ListOfNumpyData
-        ret = {'npy': _np.ndarray, 'listnpy': list, 'pd': _pd.DataFrame, 'json': dict, 'mem': dict, 'dir': DirData, 'cont': ContinuesData, 'gen': typing.Generator, 'gen0': typing.Generator,
+        ret = {'npy': _np.ndarray, 'listnpy': list, 'listnpy12': list, 'pd': _pd.DataFrame, 'json': dict, 'mem': dict, 'dir': DirData, 'cont': ContinuesData, 'gen': typing.Generator, 'gen0': typing.Generator,
                'lazy': GeneratedDataLazy, 'list': list, 'str': str, 'int': int}[data]
         if data == 'mem':
             meta['data_class'] = InMemoryData
@@ -213,8 +215,10 @@ def run({args}):
     src = f'''
 def run({args}):
     inputs = {{}}
-    for _n, _t in self.input_tasks.items():
+    for _pos, (_n, _t) in enumerate(self.input_tasks.items()):
         _k = _n.split('::')[-1]
+        if {access == 'index'!r}:
+            _t = self.input_tasks[_pos]          # the same input, addressed by its position in Meta.input_tasks
         inputs[_k] = _norm_input(_t.value) if hasattr(_t, 'value') and hasattr(_t, 'fullname') else _t
     _RUNLOG.append((self.fullname, id(self)))
     _nth = sum(1 for _r in _RUNLOG if _r[0] == self.fullname)
@@ -253,6 +257,8 @@ def run({args}):
         src += '    return _np_of(value)\n'
     elif data == 'listnpy':
         src += '    return [_np_of(value, k) for k in range(3)]\n'
+    elif data == 'listnpy12':
+        src += '    return [_np_of(value, k) for k in range(12)]\n'
     elif data == 'pd':
         src += '    return _df_of(value)\n'
     elif data == 'lazy':
